@@ -606,6 +606,68 @@ func init() {
 		set(m.strLit(""))
 		return TupleV{m.freshBytes(data), IfaceV{}}
 	})
+	// io.ReadFull(r, buf): fills buf completely or fails. The buffer is an opaque []byte whose
+	// allocation the engine saw; every live slice of it shows the bytes read (heap walk).
+	add("io.ReadFull", func(m *Machine, _ *Thread, _ *Frame, a []Value, _ ssa.Value) Value {
+		m.bumpEpoch(a[0])
+		buf, ok := a[1].(ByteSlice)
+		if !ok {
+			panic(m.unsupported("io.ReadFull into %T", a[1]))
+		}
+		want := m.bytesLen(buf)
+		if buf.Nil || m.isEmptyLit(buf.T) {
+			return TupleV{BVC(64, 0), IfaceV{}}
+		}
+		if buf.Buf == nil || !buf.AtStart || buf.Resliced {
+			panic(m.unsupported("io.ReadFull into an opaque []byte of unknown provenance"))
+		}
+		overwrite := func(nt *Term) {
+			old := buf.T
+			m.walkValues(func(v Value) Value {
+				y, isB := v.(ByteSlice)
+				if !isB || y.Buf != buf.Buf || y.Nil {
+					return v
+				}
+				if !structEq(y.T, old, 50) {
+					panic(m.unsupported("io.ReadFull into a buffer that has other slices of different extent"))
+				}
+				y.T = nt
+				return y
+			})
+		}
+		if m.readerFails(a[0]) {
+			overwrite(m.fresh("io.partial", m.bytesSort()))
+			return TupleV{m.fresh("io.readfull.n", SBV(64)), m.opaqueError("io.read")}
+		}
+		data, set := m.readerSource(a[0])
+		have := m.strLen(data)
+		if m.branch("io.readfull.enough", BVCmp("bvuge", have, want)) {
+			if m.Domain == DomString {
+				head := m.strSlice(data, nil, want)
+				set(m.strSlice(data, want, nil))
+				overwrite(head)
+			} else {
+				// algebra domain: the split of the stream is an uninterpreted pair (exact when the
+				// whole stream is consumed)
+				if m.branch("io.readfull.exact", Eq(have, want)) {
+					set(m.strLit(""))
+					overwrite(data)
+				} else {
+					m.weak = appendUniq(m.weak, []string{"io.ReadFull of a proper prefix of the stream in the algebra domain"}, 20)
+					head := m.fresh("io.readfull.head", m.bytesSort())
+					set(m.fresh("io.readfull.rest", m.bytesSort()))
+					overwrite(head)
+				}
+			}
+			return TupleV{want, IfaceV{}}
+		}
+		set(m.strLit(""))
+		overwrite(m.fresh("io.partial", m.bytesSort()))
+		if m.branch("io.readfull.empty", Eq(have, BVC(64, 0))) {
+			return TupleV{BVC(64, 0), m.errSentinelByName("io.EOF")}
+		}
+		return TupleV{have, m.errSentinelByName("io.ErrUnexpectedEOF")}
+	})
 	// bytes.Buffer: an appendable, consumable byte queue (zero value ready to use)
 	bufState := func(m *Machine, v Value) *readerState {
 		p, ok := v.(Ptr)
